@@ -388,10 +388,11 @@ def build_grouped(kinds, rot, g, h, o):
     return b
 
 
-def named_statements(nrot_plain, nrot_grouped):
-    """('named', label, text, targets, nhidden)"""
+def named_statements(nrot_plain, nrot_grouped, seed=0):
+    """('named', label, text, targets, nhidden).  The seed shifts which menu entry / spelling meets which
+    kind sequence; the set of kind sequences x hidden configurations does not depend on it."""
     seqs = [''.join(s) for n in (1, 2, 3, 4) for s in itertools.product('ACE', repeat=n)]
-    rot = 0
+    rot = seed * 13
     for si, kinds in enumerate(seqs):
         for r in range(nrot_plain):
             for nh in (0, 1, 2, 3):
@@ -491,12 +492,12 @@ def _hashable(table):
     return isinstance(table, HTable)
 
 
-def table_kind_statements(conn):
+def table_kind_statements(conn, seed=0):
     """Named targets (type-agnostic expressions) on every table kind: A, C, E mixes with hidden ORDER BY."""
     sources = [(f'#{name}', list(table.wildcard_columns)) for name, table in conn.tables.items() if list(table.wildcard_columns)]
     sources.append(('(SELECT i AS a, s AS x, d FROM #t ORDER BY j)', ['a', 'x', 'd']))
     sources.append(('(SELECT s, count(*) AS n, max(i) FROM #t GROUP BY s)', ['s', 'n']))
-    rot = 0
+    rot = seed * 7
     for frm, cols in sources:
         cols = [c for c in cols if c not in RESERVED]       # accounts.open / accounts.close are words of the FROM grammar
         c1, c2 = cols[0], cols[min(1, len(cols) - 1)]
@@ -645,22 +646,22 @@ def unjson_targets(spec):
     return [{k: (ast_from_json(v) if k == 'expr' else v) for k, v in t.items()} for t in spec]
 
 
-def units(tier):
+def units(tier, seed=0):
     thorough = tier == 'thorough'
     conn = connection()
-    yield from named_statements(*((2, 1) if not thorough else (20, 6)))
+    yield from named_statements(*((2, 1) if not thorough else (20, 6)), seed)
     yield from duplicate_statements()
     yield from wildcard_statements(conn, thorough)
-    yield from table_kind_statements(conn)
+    yield from table_kind_statements(conn, seed)
 
 
 _UNITS = None       # built once in the parent, inherited by the forked workers
 
 
-def shard_fn(shard, nshards, tier):
+def shard_fn(shard, nshards, tier, seed):
     acc = par.Acc()
     conn = connection()
-    for i, u in enumerate(_UNITS if _UNITS is not None else units(tier)):
+    for i, u in enumerate(_UNITS if _UNITS is not None else units(tier, seed)):
         if i % nshards != shard:
             continue
         group, label, text, spec, nhidden = u
@@ -693,8 +694,8 @@ def replay(case):
 def run(ctx):
     global _UNITS
     conn = connection()
-    _UNITS = list(units(ctx.tier))
-    total = par.run_shards(shard_fn, ctx.jobs, ctx.tier, nshards=ctx.jobs * 4)
+    _UNITS = list(units(ctx.tier, ctx.seed))
+    total = par.run_shards(shard_fn, ctx.jobs, ctx.tier, ctx.seed, nshards=ctx.jobs * 4)
     _UNITS = None
     n, s = total.n, total.sets
     cov = {
@@ -707,7 +708,8 @@ def run(ctx):
                 'column, expression} of length 1..4 x hidden-target configurations x spelling rotations, duplicates, `*` on every table kind, '
                 'named targets on every table kind; distinct & non-trivial = distinct statement texts (every statement has >= 1 target)',
         'exhaustive': True,
-        'bound': f'target lists of 1..4 targets; 0..3 hidden targets; spelling rotations plain/grouped = {(2, 1) if ctx.quick else (20, 6)}',
+        'bound': f'target lists of 1..4 targets; 0..3 hidden targets; spelling rotations plain/grouped = {(2, 1) if ctx.quick else (20, 6)}; '
+                 f'rotation offset from VERIF_SEED = {ctx.seed}',
         'kind_sequences_visited': len(s['kind_sequences']),
         'targets_by_kind': {k[8:-1]: v for k, v in sorted(n.items()) if k.startswith('targets[')},
         'statements_by_hidden_count': {k[7:-1]: v for k, v in sorted(n.items()) if k.startswith('hidden[')},
